@@ -274,6 +274,14 @@ def run(A, R: Report, thorough: bool):
     R.check(tr == ('attr', ('self',), 'repr'), 'R02.5', 'ReprStr.__repr__', key_of('repr-field', pretty(tr)), 'returns the stored placeholder form', f'__repr__ returns `{pretty(tr)}`, not the stored placeholder text', where=where(frepr))
     check_reprstr_levels(A, R, 'R02.5')
 
+    # ---- R02.7 / R02.8 shared structural conditions
+    from .c01 import check_input_map
+    R.rule('R02.7', 'the key names every Task-valued input under the name the consumer declares it by, relative to the consumer\'s own namespace (the same pipeline mounted elsewhere gets the same key)', floor=1)
+    check_input_map(A, R, 'R02.7', K)
+    from .c11 import check_wrap_condition
+    R.rule('R02.8', 'whether a config string is rendered by its original placeholder text does not depend on the values (or presence) of the global variables', floor=1)
+    check_wrap_condition(A, R, 'R02.8')
+
 
 def check_reprstr_levels(A, R: Report, rid: str):
     """Encoding level analysis (also R11.4): ReprStr.__new__ applies repr() to its second argument (level 0 -> field
